@@ -80,7 +80,29 @@ def install():
     import spherical.wigner as W
     if _orig:
         return
-    for k in KERNELS:
+    # every compiled kernel the module can call is a step boundary: the documented list plus whatever numba dispatchers the
+    # module namespace holds now (a kernel added by a change to the library is discovered, not missed)
+    names = [k for k in KERNELS if hasattr(W, k)]
+    # names that compiled code itself refers to must stay what numba can type (wrapping them would break compilation):
+    # everything loaded inside a decorated (jitted) function body of the module
+    import ast
+    import inspect
+    used_in_jit = set()
+    try:
+        tree = ast.parse(inspect.getsource(W))
+        for node in tree.body:
+            if isinstance(node, ast.FunctionDef) and node.decorator_list:
+                used_in_jit |= {n.id for n in ast.walk(node) if isinstance(n, ast.Name)}
+    except (OSError, SyntaxError):
+        used_in_jit = None
+    for k, v in list(vars(W).items()):
+        if k in names or not (hasattr(v, "py_func") and callable(v)):
+            continue
+        if used_in_jit is None or k in used_in_jit:
+            continue
+        if getattr(v.py_func, "__module__", "") == W.__name__:      # a kernel defined in wigner.py and called from its Python code
+            names.append(k)
+    for k in names:
         fn = getattr(W, k)
         _orig[k] = fn
 
